@@ -32,7 +32,7 @@ import (
 )
 
 type Req struct {
-	Op     string `json:"op"` // http | close | state | snapshot | exit
+	Op     string `json:"op"` // http | close | state | barrier | snapshot | exit
 	Mux    string `json:"mux,omitempty"`
 	Method string `json:"method,omitempty"`
 	Path   string `json:"path,omitempty"`
@@ -196,6 +196,13 @@ func ChildMain() bool {
 				t += hx.HashDump(hx.DumpTable(rs, tb)) + "/"
 			}
 			reply(Resp{Status: 1, Version: node.VerifBalloon().Version(), Tables: t, FsmIndex: idx, FsmVersion: ver, Boundaries: atomic.LoadInt64(&boundaries)})
+		case "barrier":
+			err := node.VerifBarrier(20 * time.Second)
+			r := Resp{Status: 1, Boundaries: atomic.LoadInt64(&boundaries)}
+			if err != nil {
+				r.Err = err.Error()
+			}
+			reply(r)
 		case "snapshot":
 			err := node.VerifForceRaftSnapshot()
 			r := Resp{Status: 1, Boundaries: atomic.LoadInt64(&boundaries)}
